@@ -31,7 +31,7 @@ ASSUMPTIONS = [
     "debounce timing is judged with 2 ms tolerance and never by itself: 'event never delivered' needs the debouncer thread parked in an "
     "untimed wait in repeated stack samples",
 ]
-MINIMUMS = {"quick": {"debouncer_cases": 150, "autorestart_cases": 150, "shell_cases": 40, "hold_cases_reached": 40},
+MINIMUMS = {"quick": {"debouncer_cases": 150, "autorestart_cases": 150, "shell_cases": 25, "hold_cases_reached": 30},
             "thorough": {"debouncer_cases": 5000, "autorestart_cases": 5000, "shell_cases": 1000, "hold_cases_reached": 1000}}
 WALL_CAP = {"quick": 170, "thorough": 3000}
 
